@@ -51,6 +51,7 @@ class StaticQuantile(Unit):
     def configs(self):
         yield "Deterministic", dict(kind="Deterministic")
         yield "Normal", dict(kind="Normal")
+        yield "MixtureSameFamily", dict(kind="MixtureSameFamily")
 
     def opts(self, cfg):
         def isinst(ex, x, tname):
@@ -66,6 +67,8 @@ class StaticQuantile(Unit):
         ex.lib.ns["distrax"].entries.update(Deterministic=TypeTag("Deterministic"), Normal=TypeTag("Normal"), MixtureSameFamily=TypeTag("MixtureSameFamily"))
         ex.lib.ns["jax"].entries["scipy"] = NS("jax.scipy", {"special": NS("special", {"ndtri": lambda ex_, q: NDTRI(toz(q))})})
         ex.lib.ns["numpy"].entries["ones"] = lambda ex_, shape=(): 1.0
+        if ctx.cfg["kind"] == "MixtureSameFamily":
+            return self.run_mixture(ctx)
         dist, did = mk_static(ctx.cfg["kind"])
         D = Rec("StaticDist", dict(rng=z3.Const("rng", Leaf), dist=dist), module=BASE, frozen=True)
         q, q2 = z3.Reals("q q2")
@@ -79,6 +82,99 @@ class StaticQuantile(Unit):
             ctx.require(dist.f["scale"] >= 0)
             ctx.ensure("C15 normal distribution: quantile(q) = loc + scale * ndtri(q) (exact inverse of the normal CDF)", v == NDTRI(q) * dist.f["scale"] + dist.f["loc"])
             ctx.ensure("C15 quantile is non-decreasing in q", z3.Implies(q <= q2, v <= v2))
+
+    def run_mixture(self, ctx):
+        """the mixture branch hands THIS distribution and the asked probability to the grid search, over a grid that spans every component's 0.1% .. 99.9% range (with the
+        10% margins of the code); two different mixtures asked one after the other each get the search on their own distribution"""
+        ex = ctx.ex
+        MQ = z3.Function("mixture_grid_quantile", Leaf, REAL, INT, REAL, REAL, REAL)
+        calls = []
+
+        def mdq(ex_, o, a, k, node):
+            calls.append(k)
+            probs = k["probs"]
+            return [_Flat(MQ(k["dist"].f["id"], toz(probs), k["N_grid_points"], toz(k["grid_min"]), toz(k["grid_max"])))]
+        ex.summaries["mixture_distribution_quantiles"] = mdq
+        jnp = ex.lib.ns["jax.numpy"]
+        saved = jnp.entries.get("array")
+        jnp.entries["array"] = lambda ex_, x, *a, **k: _Flat(x)
+
+        def mk(tag):
+            n = 2
+            # both mixtures have the SAME components and differ in their weights only (their identity `id` stands for the whole distribution)
+            loc, scale = [z3.Real(f"m.loc{i}") for i in range(n)], [z3.Real(f"m.scale{i}") for i in range(n)]
+            for s_ in scale:
+                ctx.require(s_ > 0)
+            comp = Rec("Normal", dict(loc=_Vec(loc), scale=_Vec(scale)), module=None, frozen=True)
+            return Rec("MixtureSameFamily", dict(id=z3.Const(f"{tag}.id", Leaf), components_distribution=comp, mixture_distribution=z3.Const(f"{tag}.weights", Leaf)), module=None, frozen=True), loc, scale
+        try:
+            outs = []
+            for tag in ("m1", "m2"):
+                dist, loc, scale = mk(tag)
+                D = Rec("StaticDist", dict(rng=z3.Const("rng", Leaf), dist=dist), module=BASE, frozen=True)
+                q = z3.RealVal("0.99")         # the same probability both times (the default-delay query)
+                v = ex.call(ex.getattr(D, "quantile"), [q], {}) if outs else ctx.call(self_obj=D, args=[q])
+                outs.append((tag, dist, loc, scale, q, v))
+        finally:
+            if saved is not None:
+                jnp.entries["array"] = saved
+        ctx.ensure("C15 one grid search per query (the second mixture is not answered from the first one's result)", z3.BoolVal(len(calls) == 2))
+        for i, (tag, dist, loc, scale, q, v) in enumerate(outs):
+            if i >= len(calls):
+                break
+            k = calls[i]
+            lo = [NDTRI(z3.RealVal("0.001")) * s_ + l for l, s_ in zip(loc, scale)]
+            hi = [NDTRI(z3.RealVal("0.999")) * s_ + l for l, s_ in zip(loc, scale)]
+            mn = z3.If(lo[0] <= lo[1], lo[0], lo[1])
+            mx = z3.If(hi[0] >= hi[1], hi[0], hi[1])
+            ctx.ensure(f"C15 query {i + 1}: the quantile is the grid search on THIS mixture (its own weights and components) at the asked probability, nothing remembered from another query",
+                       z3.And(z3.BoolVal(k["dist"] is dist and k["N_grid_points"] == 1000), toz(k["probs"]) == q, toz(v) == MQ(dist.f["id"], q, 1000, toz(k["grid_min"]), toz(k["grid_max"]))))
+            ctx.ensure(f"C15 query {i + 1}: the grid spans every component's 0.1% .. 99.9% range (times 0.9 / 1.1)", z3.And(toz(k["grid_min"]) == mn * z3.RealVal("0.9"), toz(k["grid_max"]) == mx * z3.RealVal("1.1")))
+
+
+class _Vec:
+    """a concrete-length vector of symbolic reals (component parameters)"""
+
+    def __init__(self, xs):
+        self.xs = list(xs)
+
+    def pyvc_binop(self, ex, op, other, reflected):
+        import ast as _ast
+        ys = other.xs if isinstance(other, _Vec) else [other] * len(self.xs)
+        f = {_ast.Add: lambda a, b: a + b, _ast.Mult: lambda a, b: a * b, _ast.Sub: lambda a, b: a - b}.get(type(op))
+        if f is None:
+            raise Unsupported("vector operator")
+        return _Vec([(f(toz(b), toz(a)) if reflected else f(toz(a), toz(b))) for a, b in zip(self.xs, ys)])
+
+    def pyvc_getattr(self, ex, attr):
+        if attr in ("min", "max"):
+            def red(ex_):
+                acc = toz(self.xs[0])
+                for x in self.xs[1:]:
+                    x = toz(x)
+                    acc = z3.If(acc <= x, acc, x) if attr == "min" else z3.If(acc >= x, acc, x)
+                return acc
+            return red
+        if attr == "tobytes":
+            return lambda ex_: "bytes:" + ",".join(str(toz(x)) for x in self.xs)      # equal exactly when the entries are the same terms
+        raise Unsupported(f"vector attribute {attr}")
+
+
+class _Flat:
+    """jnp.array(q).reshape(-1) of a scalar probability: still that probability"""
+
+    def __init__(self, x):
+        self.x = x
+
+    def pyvc_getattr(self, ex, attr):
+        if attr == "reshape":
+            return lambda ex_, *a: self.x
+        raise Unsupported(attr)
+
+
+StaticQuantile.replay = lambda self, label, clause, probes, model: ({"kind": "bounded_case", "script": "c15_quantiles.py",
+                                                                      "case": dict(kind="mixture", w=[0.006, 0.994], loc=[0.05, 0.01], scale=[0.005, 0.002], key=7, const_data=False)}
+                                                                     if "Mixture" in label else None)
 
 
 GMM = "rex/gmm_estimator.py"
